@@ -489,3 +489,33 @@ func typeIs(t types.Type, pkgPath, name string) bool {
 func typeShort(t types.Type) string {
 	return types.TypeString(t, func(p *types.Package) string { return p.Name() })
 }
+
+// retVal resolves result i of a Return: when the function's results are spilled to cells (named
+// results, or a function containing a range-over-func body or defer) go/ssa returns a load of the
+// cell; the value meant is the last store to that cell earlier in the same block.
+func retVal(ret *ssa.Return, i int) ssa.Value {
+	v := ret.Results[i]
+	ld, ok := v.(*ssa.UnOp)
+	if !ok || ld.Op != token.MUL {
+		return v
+	}
+	a, ok := ld.X.(*ssa.Alloc)
+	if !ok {
+		return v
+	}
+	b := ret.Block()
+	idx := -1
+	for j, in := range b.Instrs {
+		if in == ssa.Instruction(ld) {
+			idx = j
+		}
+	}
+	for j := idx - 1; j >= 0; j-- {
+		if st, ok := b.Instrs[j].(*ssa.Store); ok && st.Addr == a {
+			return st.Val
+		}
+	}
+	return v
+}
+
+func retLast(ret *ssa.Return) ssa.Value { return retVal(ret, len(ret.Results)-1) }
